@@ -134,8 +134,13 @@ impl FromStr for Imm {
             if s.starts_with('-') {
                 return Err(());
             }
-            match s.parse::<i32>() {
-                Ok(i) => Ok(Imm(mul * i)),
+            // Parse the magnitude in 64 bits so that -2147483648 is representable.
+            match s.parse::<i64>() {
+                Ok(i) => i
+                    .checked_mul(i64::from(mul))
+                    .and_then(|v| i32::try_from(v).ok())
+                    .map(Imm)
+                    .ok_or(()),
                 Err(_) => Err(()),
             }
         }
